@@ -10,7 +10,11 @@
 // Model (see NOTES.md): the two shared cells (`real_file`, `closed`) are handles (`Mailbox`, `Closed`)
 // onto ghost tokens (`MbTok`, `ClTok`) that carry the cell contents.  Every access to a cell goes
 // through one shim call that needs `&mut` on the token, so a verified method is a whole, sequential
-// operation on the shared state.  Blocking, wake-ups and deadlock-freedom are NOT modelled.
+// operation on the shared state.  The closed cell's token carries what the cell holds NOW (`None` until the
+// producer has published: what a single `lock()` finds) and what it holds EVENTUALLY (once the producer has
+// published: what the wait loop, `wait_closed`, hands out), so a consumer that looks once instead of waiting is
+// a different program in the model and fails `.../the_cell_is_read_only_after_waiting_for_the_producer`.
+// That the wait returns at all (wake-ups, deadlock-freedom) is NOT modelled.
 use vstd::prelude::*;
 verus! {
 
@@ -155,38 +159,79 @@ pub struct Closed<R> { _p: core::marker::PhantomData<R> }
 #[verifier::external_body]
 #[verifier::reject_recursive_types(R)]
 pub tracked struct ClTok<R> { _p: core::marker::PhantomData<R> }
+/// Ghost state of the closed cell `id()`.  It carries TWO values, so that "waits for the producer" and
+/// "looks once" are different things in the model:
+///  * `now()`        what the cell holds at the moment of the call: `None` as long as the producer has
+///                   not published (that is what a single `lock()` finds);
+///  * `eventually()` what the cell holds once the producer has published (that is what the wait loop
+///                   hands out).  `val()` of the contracts is this value.
+/// `wf()`: a single look finds nothing, or exactly the published value.
 impl<R> ClTok<R> {
     pub uninterp spec fn id(&self) -> int;
-    /// `None` until the producer's drop publishes its final state
-    pub uninterp spec fn val(&self) -> Option<BufferState<R>>;
+    pub uninterp spec fn now(&self) -> Option<BufferState<R>>;
+    pub uninterp spec fn eventually(&self) -> Option<BufferState<R>>;
     pub uninterp spec fn locks(&self) -> nat;
+    pub open spec fn val(&self) -> Option<BufferState<R>> { self.eventually() }
+    pub open spec fn wf(&self) -> bool { self.now() is None || self.now() == self.eventually() }
+    /// Ghost step for the drivers only (no repository code can call it): the consumer's call STARTED before
+    /// the producer published.  A single look at that moment finds the cell empty; what a waiting consumer
+    /// receives is unchanged.  The drivers list whole operations in the order in which they take effect;
+    /// this step moves the start of the consumer's next call back before the publication.
+    #[verifier::external_body]
+    pub proof fn call_started_before_publication(tracked &mut self)
+        ensures
+            final(self).id() == old(self).id(),
+            final(self).locks() == old(self).locks(),
+            final(self).eventually() == old(self).eventually(),
+            final(self).now() is None,
+    { unimplemented!() }
 }
 impl<R> Closed<R> {
     pub uninterp spec fn id(&self) -> int;
-    /// lock.lock().unwrap(): exclusive access to the cell's contents for the rest of the method
+    /// lock.lock().unwrap(): exclusive access to what the cell holds NOW for the rest of the method; no
+    /// waiting.  Whatever the method leaves in the cell is what it holds from then on, with one exception:
+    /// a cell found empty and left empty still receives the producer's publication later.
     #[verifier::external_body]
     pub fn lock<'a>(&self, Tracked(t): Tracked<&'a mut ClTok<R>>) -> (g: &'a mut Option<BufferState<R>>)
         requires
             old(t).id() == self.id(),
         ensures
-            *g == old(t).val(),
-            final(t).val() == *final(g),
+            *g == old(t).now(),
+            final(t).now() == *final(g),
+            final(t).eventually() == (if old(t).now() is None && *final(g) is None { old(t).eventually() } else { *final(g) }),
             final(t).id() == old(t).id(),
             final(t).locks() == old(t).locks() + 1,
     { unimplemented!() }
-    /// R13: lock + `while closed.is_none() { closed = cvar.wait(closed).unwrap(); }`.  The loop exits
-    /// only once the cell is `Some`; the precondition says we verify the code for exactly that
-    /// situation.  Whether it is ever reached (wake-up, no deadlock) is NOT modelled.
+    /// R13: lock + `while closed.is_none() { closed = cvar.wait(closed).unwrap(); }`.  The loop exits only
+    /// once the producer has published, so it hands out the value the cell holds THEN (`eventually()`),
+    /// whatever a single look would have found at the moment of the call.  That it returns at all
+    /// (wake-up, no deadlock) is NOT modelled: the precondition restricts the verification to cells that
+    /// do get published.
     #[verifier::external_body]
     pub fn wait_closed<'a>(&self, Tracked(t): Tracked<&'a mut ClTok<R>>) -> (g: &'a mut Option<BufferState<R>>)
         requires
             old(t).id() == self.id(),
-            old(t).val() is Some,
+            old(t).eventually() is Some,
         ensures
-            *g == old(t).val(),
-            final(t).val() == *final(g),
+            *g == old(t).eventually(),
+            final(t).now() == *final(g),
+            final(t).eventually() == *final(g),
             final(t).id() == old(t).id(),
             final(t).locks() == old(t).locks() + 1,
+    { unimplemented!() }
+}
+/// The Condvar half of the pair as seen by a consumer method in which the R13 idiom was NOT recognised (the method
+/// then goes through the plain `lock`): present so that an edit which waits differently (once, or on another
+/// condition) is judged instead of rejected.  `Condvar::wait` gives the lock up and takes it again after a wake-up
+/// that may be spurious; the guard then shows whatever the cell holds at that moment -- nothing is promised about it.
+pub struct CvarView { }
+#[derive(Debug)]
+pub struct Poisoned { }
+impl CvarView {
+    #[verifier::external_body]
+    pub fn wait<'a, T>(&self, g: &'a mut T) -> (r: Result<&'a mut T, Poisoned>)
+        ensures
+            r matches Ok(g2) && *final(g) == *final(g2),
     { unimplemented!() }
 }
 /// R6: panic!/unreachable! -- must be proved unreachable
@@ -380,6 +425,8 @@ impl<R: Write> TempFileBufferWriter<R> {
         final(self).inmemory == old(self).inmemory, final(cl).id() == old(cl).id(),
         [[L: publishes_final_state_nothing_lost]]
         final(cl).val() == Some(old(self).buffer_state),
+        [[L: published_state_is_visible_at_once]]
+        final(cl).now() == final(cl).val(),
         [[L: publishes_once]]
         final(cl).locks() == old(cl).locks() + 1,
         [[L: writer_left_empty]]
@@ -426,11 +473,12 @@ impl<R: Write> TempFileBuffer<R> {
     requires
         [[L: pre]]
         old(cl).id() == self.closed.id(),
+        old(cl).wf(),
     ensures
         [[L: true_iff_producer_has_published]]
-        r == (old(cl).val() is Some),
+        r == (old(cl).now() is Some),
         [[L: cell_unchanged]]
-        final(cl).val() == old(cl).val(),
+        final(cl).now() == old(cl).now(), final(cl).val() == old(cl).val(),
         [[L: frame]]
         final(cl).id() == old(cl).id(), final(cl).locks() == old(cl).locks() + 1,
 //@end
@@ -439,7 +487,10 @@ impl<R: Write> TempFileBuffer<R> {
 //@rule R16
 //@ret r
 //@rule R6 min=1
-//@presub /let &\(ref lock, ref cvar\) = &\*self\.closed;\s*let mut closed = lock\.lock\(\)\.unwrap\(\);\s*while closed\.is_none\(\) \{\s*closed = cvar\.wait\(closed\)\.unwrap\(\);\s*\}/ => let mut closed = self.closed.wait_closed(Tracked(cl)); min=1 count=1
+//@presub /let &\(ref lock, ref cvar\) = &\*self\.closed;\s*let mut closed = lock\.lock\(\)\.(?:unwrap\(\)|expect\("[^"]*"\));\s*while closed\.is_none\(\) \{\s*closed = cvar\.wait\(closed\)\.(?:unwrap\(\)|expect\("[^"]*"\));\s*\}/ => let mut closed = self.closed.wait_closed(Tracked(cl)); min=0 count=1
+//@presub /let &\(ref lock, [^)]*\) = &\*self\.closed;\s*let mut closed = lock\.lock\(\)\.(?:unwrap\(\)|expect\("[^"]*"\));/ => let cvar = CvarView { }; let mut closed = self.closed.lock(Tracked(cl)); min=0 count=1
+//@presub /while ((?:!\s*)?closed\.is_(?:none|some)\(\)) \{/ => while \1 decreases 0int { min=0
+//@presub /(self\.closed\.(?:wait_closed|lock)\(Tracked\(cl\)\))/ => \1 min=1 count=1
 //@sub /fn len\(&self\) -> io::Result<u64>/ => fn len(&self, Tracked(cl): Tracked<&mut ClTok<R>>, Ghost(w): Ghost<Seq<u8>>) -> IoResult<u64>
 //@sub /io::SeekFrom::/ => SeekFrom:: min=0
 //@sig
@@ -447,14 +498,18 @@ impl<R: Write> TempFileBuffer<R> {
         [[L: pre_published_and_not_switched]]
         old(cl).id() == self.closed.id(),
         old(cl).val() matches Some(st) && !(st is Real) && staging_ok(st, w),
+        old(cl).wf(),
     ensures
         [[L: reported_length_is_bytes_written]]
         r matches Ok(n) ==> n as int == w.len(),
         [[L: state_kept]]
         r is Ok ==> (final(cl).val() matches Some(st2) && same_contents(old(cl).val().unwrap(), st2)),
+        [[L: published_state_seen_after_waiting]]
+        final(cl).now() == final(cl).val(),
         [[L: frame]]
         final(cl).id() == old(cl).id(), final(cl).locks() == old(cl).locks() + 1,
 //@at /let closed = closed\.as_mut\(\);/ before
+        assert(*closed is Some); [[L: the_cell_is_read_only_after_waiting_for_the_producer]]
         assert(*closed matches Some(st) && !(st is Real)); [[L: panic_should_not_have_switched_unreachable]]
 //@end
 
@@ -462,7 +517,10 @@ impl<R: Write> TempFileBuffer<R> {
 //@rule R16
 //@ret d
 //@rule R6 min=2
-//@presub /let &\(ref lock, ref cvar\) = &\*self\.closed;\s*let mut closed = lock\.lock\(\)\.unwrap\(\);\s*while closed\.is_none\(\) \{\s*closed = cvar\.wait\(closed\)\.unwrap\(\);\s*\}/ => let mut closed = self.closed.wait_closed(Tracked(cl)); min=1 count=1
+//@presub /let &\(ref lock, ref cvar\) = &\*self\.closed;\s*let mut closed = lock\.lock\(\)\.(?:unwrap\(\)|expect\("[^"]*"\));\s*while closed\.is_none\(\) \{\s*closed = cvar\.wait\(closed\)\.(?:unwrap\(\)|expect\("[^"]*"\));\s*\}/ => let mut closed = self.closed.wait_closed(Tracked(cl)); min=0 count=1
+//@presub /let &\(ref lock, [^)]*\) = &\*self\.closed;\s*let mut closed = lock\.lock\(\)\.(?:unwrap\(\)|expect\("[^"]*"\));/ => let cvar = CvarView { }; let mut closed = self.closed.lock(Tracked(cl)); min=0 count=1
+//@presub /while ((?:!\s*)?closed\.is_(?:none|some)\(\)) \{/ => while \1 decreases 0int { min=0
+//@presub /(self\.closed\.(?:wait_closed|lock)\(Tracked\(cl\)\))/ => \1 min=1 count=1
 //@sub /fn await_real_file\(self\)/ => fn await_real_file(self, Tracked(mb): Tracked<&mut MbTok<R>>, Tracked(cl): Tracked<&mut ClTok<R>>, Ghost(g): Ghost<G>)
 //@sub /self\.real_file\.swap\(/ => self.real_file.swap1(Tracked(mb),  min=1 count=1
 //@sub /io::SeekFrom::/ => SeekFrom:: min=0
@@ -474,6 +532,7 @@ impl<R: Write> TempFileBuffer<R> {
         old(mb).id() == self.real_file.id(),
         old(cl).id() == self.closed.id(),
         old(cl).val() matches Some(st) && proto(st, old(mb).held(), g),
+        old(cl).wf(),
         g.sw,
     ensures
         [[L: destination_holds_d0_then_all_written_bytes_once_in_order]]
@@ -481,11 +540,13 @@ impl<R: Write> TempFileBuffer<R> {
         [[L: mailbox_emptied]]
         final(mb).held() is None,
         [[L: closed_cell_emptied]]
-        final(cl).val() is None,
+        final(cl).val() is None, final(cl).now() is None,
         [[L: frame]]
         final(mb).id() == old(mb).id(), final(cl).id() == old(cl).id(),
         [[L: one_lock_one_mailbox_access]]
         final(mb).ops() == old(mb).ops() + 1, final(cl).locks() == old(cl).locks() + 1,
+//@at /\bclosed\.take\(\)/ before optional
+        assert(*closed is Some); [[L: the_cell_is_read_only_after_waiting_for_the_producer]]
 //@at /match \(real_file, closed\) \{/ before
         assert(!(real_file is Some && closed is Real)); [[L: unreachable_destination_in_two_places]]
         assert(real_file is Some || closed is Real); [[L: panic_should_have_switched_unreachable]]
@@ -496,7 +557,10 @@ impl<R: Write> TempFileBuffer<R> {
 //@ret r
 //@rule R6 min=2
 //@rule R14 min=3
-//@presub /let &\(ref lock, ref cvar\) = &\*self\.closed;\s*let mut closed = lock\.lock\(\)\.unwrap\(\);\s*while closed\.is_none\(\) \{\s*closed = cvar\.wait\(closed\)\.unwrap\(\);\s*\}/ => let mut closed = self.closed.wait_closed(Tracked(cl)); min=1 count=1
+//@presub /let &\(ref lock, ref cvar\) = &\*self\.closed;\s*let mut closed = lock\.lock\(\)\.(?:unwrap\(\)|expect\("[^"]*"\));\s*while closed\.is_none\(\) \{\s*closed = cvar\.wait\(closed\)\.(?:unwrap\(\)|expect\("[^"]*"\));\s*\}/ => let mut closed = self.closed.wait_closed(Tracked(cl)); min=0 count=1
+//@presub /let &\(ref lock, [^)]*\) = &\*self\.closed;\s*let mut closed = lock\.lock\(\)\.(?:unwrap\(\)|expect\("[^"]*"\));/ => let cvar = CvarView { }; let mut closed = self.closed.lock(Tracked(cl)); min=0 count=1
+//@presub /while ((?:!\s*)?closed\.is_(?:none|some)\(\)) \{/ => while \1 decreases 0int { min=0
+//@presub /(self\.closed\.(?:wait_closed|lock)\(Tracked\(cl\)\))/ => \1 min=1 count=1
 //@sub /mut real_: &mut O\) -> io::Result<\(\)>/ => mut real_: &mut O, Tracked(mb): Tracked<&mut MbTok<R>>, Tracked(cl): Tracked<&mut ClTok<R>>, Ghost(g): Ghost<G>) -> IoResult<()>
 //@sub /self\.real_file\.swap\(/ => self.real_file.swap1(Tracked(mb),  min=1 count=1
 //@sub /io::SeekFrom::/ => SeekFrom:: min=0
@@ -507,6 +571,7 @@ impl<R: Write> TempFileBuffer<R> {
         old(mb).id() == self.real_file.id(),
         old(cl).id() == self.closed.id(),
         old(cl).val() matches Some(st) && proto(st, old(mb).held(), g),
+        old(cl).wf(),
         !g.sw,
     ensures
         [[L: out_gets_exactly_the_written_bytes_once_in_order]]
@@ -514,11 +579,13 @@ impl<R: Write> TempFileBuffer<R> {
         [[L: mailbox_emptied]]
         final(mb).held() is None,
         [[L: closed_cell_emptied]]
-        final(cl).val() is None,
+        final(cl).val() is None, final(cl).now() is None,
         [[L: frame]]
         final(mb).id() == old(mb).id(), final(cl).id() == old(cl).id(),
         [[L: one_lock_one_mailbox_access]]
         final(mb).ops() == old(mb).ops() + 1, final(cl).locks() == old(cl).locks() + 1,
+//@at /\bclosed_\.take\(\)/ before optional
+        assert(*closed_ is Some); [[L: the_cell_is_read_only_after_waiting_for_the_producer]]
 //@at /assert\(real_file\.is_none\(\)\);/ before
         assert(real_file is None); [[L: assert_should_only_be_writing_to_real_file]]
 //@at /match closed_ \{/ before
@@ -557,7 +624,7 @@ pub open spec fn fresh_pair<R: Write>(b: TempFileBuffer<R>, wr: TempFileBufferWr
     &&& b.closed.id() == cl.id() && wr.closed.id() == cl.id()
     &&& wr.buffer_state is NotStarted
     &&& mb.held() is None
-    &&& cl.val() is None
+    &&& cl.now() is None
 }
 
 /// producer history segment: write(writes[lo]), .., write(writes[hi-1])
@@ -698,12 +765,78 @@ fn driver_never_switched<R: Write, O: Write>(buffer: TempFileBuffer<R>, writer: 
     Ok((n, a1))
 }
 
+/// ORDER 4: the consumer's finishing call STARTS before the producer is done (that is what the waiting is for).
+/// Whole operations in the order in which they take effect: the writes (with the switch after the k-th, or never),
+/// the drop, the consumer's finish -- but the consumer made its call before the publication
+/// (`call_started_before_publication`): a single look at that moment finds the cell empty (the poll says "not ready"),
+/// and still the result is the same as in orders 1 and 3, because the consumer methods take the cell's contents from
+/// `wait_closed`, which hands out what the cell holds once the producer has published.  This is the place where the
+/// blocking assumption R13 is used.
+fn driver_consumer_arrives_early<R: Write, O: Write>(buffer: TempFileBuffer<R>, writer: TempFileBufferWriter<R>, dest: R, out: &mut O,
+        writes: &Vec<Vec<u8>>, switch_at: Option<usize>, ask_len: bool, Tracked(mb): Tracked<MbTok<R>>, Tracked(cl): Tracked<ClTok<R>>)
+        -> (r: IoResult<(Option<R>, Ghost<Seq<Seq<u8>>>)>)
+    requires
+        fresh_pair(buffer, writer, mb, cl),
+        switch_at matches Some(k) ==> k <= writes@.len(),
+    ensures
+        [[L: order4/one_accepted_chunk_per_write]]
+        r matches Ok(p) ==> p.1@.len() == writes@.len() && accepted(p.1@, writes@),
+        [[L: order4/early_consumer_switched_destination_is_d0_then_every_accepted_byte_once_in_order]]
+        r matches Ok(p) ==> (switch_at is Some ==> (p.0 matches Some(d) && d.bytes() =~= dest.bytes() + flat(p.1@))),
+        [[L: order4/early_consumer_switched_out_untouched]]
+        r matches Ok(p) ==> (switch_at is Some ==> final(out).bytes() =~= old(out).bytes()),
+        [[L: order4/early_consumer_never_switched_out_gets_every_accepted_byte_once_in_order]]
+        r matches Ok(p) ==> (switch_at is None ==> (p.0 is None && final(out).bytes() =~= old(out).bytes() + flat(p.1@))),
+{
+    let mut buffer = buffer;
+    let mut writer = writer;
+    let tracked mut mb = mb;
+    let tracked mut cl = cl;
+    let ghost d0 = dest.bytes();
+    let ghost g0 = G { sw: false, d0: Seq::<u8>::empty(), w: Seq::<u8>::empty() };
+    match switch_at {
+        Some(k) => {
+            let a1 = write_phase(&mut writer, writes, 0, k, Tracked(&mut mb), Ghost(g0), Ghost(Seq::<Seq<u8>>::empty()))?;
+            let ghost g1 = G { sw: false, d0: Seq::<u8>::empty(), w: flat(a1@) };
+            buffer.switch(dest, Tracked(&mut mb), Ghost(writer.buffer_state), Ghost(g1));
+            let ghost g2 = g_switched(g1, d0);
+            let a2 = write_phase(&mut writer, writes, k, writes.len(), Tracked(&mut mb), Ghost(g2), Ghost(a1@))?;
+            let ghost g3 = G { sw: true, d0: d0, w: flat(a2@) };
+            writer.drop(Tracked(&mut cl));
+            proof { cl.call_started_before_publication(); }
+            let ready = buffer.is_real_file_ready(Tracked(&mut cl));
+            assert(!ready); [[L: order4/a_single_look_finds_nothing_yet]]
+            let d = buffer.await_real_file(Tracked(&mut mb), Tracked(&mut cl), Ghost(g3));
+            Ok((Some(d), a2))
+        }
+        None => {
+            let a1 = write_phase(&mut writer, writes, 0, writes.len(), Tracked(&mut mb), Ghost(g0), Ghost(Seq::<Seq<u8>>::empty()))?;
+            let ghost g1 = G { sw: false, d0: Seq::<u8>::empty(), w: flat(a1@) };
+            let ghost last = writer.buffer_state;
+            writer.drop(Tracked(&mut cl));
+            proof { cl.call_started_before_publication(); }
+            let ready = buffer.is_real_file_ready(Tracked(&mut cl));
+            assert(!ready); [[L: order4/never_switched_a_single_look_finds_nothing_yet]]
+            if ask_len {
+                let n = buffer.len(Tracked(&mut cl), Ghost(g1.w))?;
+                assert(n as int == flat(a1@).len()); [[L: order4/early_len_is_number_of_accepted_bytes]]
+                let ready2 = buffer.is_real_file_ready(Tracked(&mut cl));
+                assert(ready2); [[L: order4/ready_once_len_has_waited]]
+                proof { lemma_same_contents_keeps_proto(last, cl.val().unwrap(), mb.held(), g1); }
+            }
+            buffer.expect_closed_write(out, Tracked(&mut mb), Tracked(&mut cl), Ghost(g1))?;
+            Ok((None, a1))
+        }
+    }
+}
+
 /// ORDER *: every schedule of whole operations.  While the producer is alive the two threads perform,
 /// in any order and any number, `write(buf)` and `flush()` (producer) and `is_real_file_ready()` and
 /// `switch(dest)` (consumer; the first `Switch` in the schedule is the redirection, later ones are
 /// skipped = "switch is called at most once").  Then the producer drops.  If the schedule contained no
 /// switch the consumer may still switch now (`late_switch`).  Finally the consumer finishes with
-/// `await_real_file` (switched) or `len` + `expect_closed_write(out)` (never switched).
+/// `await_real_file` (switched) or `len` + `expect_closed_write(out)` (never switched); with `arrives_early` that
+/// finishing call started before the publication (see ORDER 4).
 pub enum Op { Write(Vec<u8>), Flush, Poll, Switch }
 
 /// the buffers of the Write operations of a schedule, in order
@@ -736,7 +869,7 @@ pub proof fn lemma_accepted_push(acc: Seq<Seq<u8>>, bufs: Seq<Seq<u8>>, b: Seq<u
 }
 
 fn driver_any_schedule<R: Write, O: Write>(buffer: TempFileBuffer<R>, writer: TempFileBufferWriter<R>, dest: R, out: &mut O,
-        ops: &Vec<Op>, late_switch: bool, Tracked(mb): Tracked<MbTok<R>>, Tracked(cl): Tracked<ClTok<R>>)
+        ops: &Vec<Op>, late_switch: bool, arrives_early: bool, Tracked(mb): Tracked<MbTok<R>>, Tracked(cl): Tracked<ClTok<R>>)
         -> (r: IoResult<(Option<R>, Ghost<Seq<Seq<u8>>>)>)
     requires
         fresh_pair(buffer, writer, mb, cl),
@@ -767,7 +900,7 @@ fn driver_any_schedule<R: Write, O: Write>(buffer: TempFileBuffer<R>, writer: Te
             buffer.real_file.id() == mb.id() && writer.real_file.id() == mb.id(),
             buffer.closed.id() == cl.id() && writer.closed.id() == cl.id(),
             [[L: any_schedule/loop/nothing_published_while_producer_alive]]
-            cl.val() is None,
+            cl.now() is None,
             [[L: any_schedule/loop/invariant_I]]
             proto(writer.buffer_state, mb.held(), g),
             g.w =~= flat(acc),
@@ -831,6 +964,11 @@ fn driver_any_schedule<R: Write, O: Write>(buffer: TempFileBuffer<R>, writer: Te
             }
             None => {}
         }
+    }
+    if arrives_early {
+        proof { cl.call_started_before_publication(); }
+        let ready = buffer.is_real_file_ready(Tracked(&mut cl));
+        assert(!ready); [[L: any_schedule/a_single_look_by_an_early_consumer_finds_nothing_yet]]
     }
     match pending {
         Some(_dest_never_handed_over) => {
